@@ -86,7 +86,12 @@ fn scan_container(v: &VCell, work: &mut Vec<usize>, deep: &mut Vec<VCell>, has_c
         }
         VCell::Continuation(k) => {
             *has_cont = true;
-            for c in k.stack().iter() {
+            // only the slots a resumed computation can read: [0, sp]
+            let ksp = k.stack().get_sp();
+            for (i, c) in k.stack().iter().enumerate() {
+                if i > ksp {
+                    break;
+                }
                 push_edges(c, work, deep);
             }
             if k.ip().0 != usize::MAX {
